@@ -99,12 +99,15 @@ struct Case {
     burst: bool,
     /// the far end sends the received message back as the very same object
     echo: bool,
+    /// the simulation starts beyond 2^24 s of simulated time (1 ns is below the resolution of an f64 second count there)
+    far: bool,
 }
+const FAR_NS: u64 = 20_000_000_123_456_789;
 
 fn case_json(c: &Case) -> Value {
     json!({"k": c.k, "layout": c.layout, "connect_order": c.perm, "orientation_bits": c.orient, "channel_bits": c.chans, "direction": c.dir,
            "send": match c.send { SendKind::Send => json!("send"), SendKind::SendIn(d) => json!({"send_in_ns": d}), SendKind::Inject(t) => json!({"add_message_onto_at_ns": t}) },
-           "reconnect": c.reconnect, "duplex": c.duplex, "burst": c.burst, "echo": c.echo})
+           "reconnect": c.reconnect, "duplex": c.duplex, "burst": c.burst, "echo": c.echo, "far_start": c.far})
 }
 fn case_from(v: &Value) -> Case {
     let s = &v["send"];
@@ -126,6 +129,7 @@ fn case_from(v: &Value) -> Case {
         duplex: v["duplex"].as_bool().unwrap_or(false),
         burst: v["burst"].as_bool().unwrap_or(false),
         echo: v["echo"].as_bool().unwrap_or(false),
+        far: v["far_start"].as_bool().unwrap_or(false),
     }
 }
 
@@ -248,11 +252,17 @@ fn run_inner(c: &Case) -> Result<u64, String> {
     // ---- dynamics
     let sender_id = sim.get(&format!("m{}", owner(src)).as_str().into()).unwrap().id().0;
     let sim_id_of_dst = sim.get(&format!("m{}", owner(dst)).as_str().into()).unwrap().id().0;
-    let mut rt = Builder::seeded(1).quiet().cqueue_options(8, Duration::from_millis(3)).build(sim.freeze());
+    let far = if c.far { FAR_NS } else { 0 };
+    let mut rt = if c.far {
+        Builder::seeded(1).quiet().cqueue_options(8, Duration::from_secs(100_000)).start_time(SimTime::from_duration(Duration::from_nanos(far))).build(sim.freeze())
+    } else {
+        Builder::seeded(1).quiet().cqueue_options(8, Duration::from_millis(3)).build(sim.freeze())
+    };
     let t0 = match c.send {
-        SendKind::Send => 0,
-        SendKind::SendIn(d) => d,
+        SendKind::Send => far,
+        SendKind::SendIn(d) => far + d,
         SendKind::Inject(t) => {
+            let t = far + t;
             // a message that is leaving the connection ending at the source gate
             rt.add_message_onto(gates[src].clone(), Message::default().id(7), SimTime::from_duration(Duration::from_nanos(t)));
             t
@@ -330,7 +340,7 @@ impl Property for C08 {
     fn rule(&self, tier: Tier) -> String {
         format!(
             "every chain of k = 2..={} gates x layout {{one module per gate, two chain gates on one module, cluster-element end gates}} x all (k-1)! connect orders x 2^(k-1) orientations x 2^(k-1) channel placements (latencies 1,2,4,8 ms so that the arrival time identifies the hops) \
-             x both directions x {{send, send_in(0.5 s), add_message_onto}} x {{plain, every connect re-issued in both orientations, duplex: both ends send at the same instant over channels that have a bitrate (the two directions must not get in each other's way), burst: two messages right behind each other over queueing channels with a bitrate (the second waits in the busy channel and arrives one transmission time later, over the same route), echo: the far end sends the received message object back as it is (the header must name the new receiver)}}; \
+             x both directions x {{send, send_in(0.5 s), add_message_onto}} x {{plain, every connect re-issued in both orientations, duplex: both ends send at the same instant over channels that have a bitrate (the two directions must not get in each other's way), burst: two messages right behind each other over queueing channels with a bitrate (the second waits in the busy channel and arrives one transmission time later, over the same route), far: the plain and the burst variant once more in a simulation that starts at 20000000.123456789 s, arrival times exact to the nanosecond; echo: the far end sends the received message object back as it is (the header must name the new receiver)}}; \
              oracle: exactly one handle_message at the far-end owner at send time + sum of latencies with last_gate / sender / receiver header fields; kind() per gate, path_iter from both ends mirror images, path_end / next_gate, channels on the declared hops, third peer rejected; \
              non-trivial = chain with at least 3 gates",
             tier.pick(5, 6)
@@ -340,7 +350,7 @@ impl Property for C08 {
         vec!["channels have bitrate 0 (pure latency) except in the duplex variant (8000 bit/s, one message per direction); busy/queue behaviour is C07's subject".into()]
     }
     fn required_features(&self, _tier: Tier) -> Vec<&'static str> {
-        vec!["chain_with_transit_gates", "two_gates_on_one_module", "cluster_end_gates", "reverse_direction", "injected_message", "reconnect_idempotence", "connects_out_of_chain_order", "third_peer_probe", "both_ends_send_at_once_over_channels_with_bitrate", "second_message_queued_behind_the_first", "received_message_sent_back_as_it_is"]
+        vec!["chain_with_transit_gates", "two_gates_on_one_module", "cluster_end_gates", "reverse_direction", "injected_message", "reconnect_idempotence", "connects_out_of_chain_order", "third_peer_probe", "both_ends_send_at_once_over_channels_with_bitrate", "second_message_queued_behind_the_first", "received_message_sent_back_as_it_is", "simulation_starting_beyond_2^24_seconds"]
     }
     fn explore(&self, ctx: &mut Ctx) {
         if ctx.is_first_shard() {
@@ -364,7 +374,7 @@ impl Property for C08 {
                         for chans in 0..(1u32 << edges) {
                             for dir in 0..2u8 {
                                 for send in [SendKind::Send, SendKind::SendIn(500_000_000), SendKind::Inject(250_000_000)] {
-                                    for (reconnect, duplex, burst, echo) in [(false, false, false, false), (true, false, false, false), (false, true, false, false), (false, false, true, false), (false, false, false, true)] {
+                                    for (reconnect, duplex, burst, echo, far) in [(false, false, false, false, false), (true, false, false, false, false), (false, true, false, false, false), (false, false, true, false, false), (false, false, false, true, false), (false, false, false, false, true), (false, false, true, false, true)] {
                                         if echo && matches!(send, SendKind::Inject(_)) {
                                             continue;
                                         }
@@ -377,7 +387,10 @@ impl Property for C08 {
                                         if !ctx.mine() {
                                             continue;
                                         }
-                                        let c = Case { k, layout, perm: perm.clone(), orient, chans, dir, send, reconnect, duplex, burst, echo };
+                                        let c = Case { k, layout, perm: perm.clone(), orient, chans, dir, send, reconnect, duplex, burst, echo, far };
+                                        if far {
+                                            ctx.hit("simulation_starting_beyond_2^24_seconds");
+                                        }
                                         if echo {
                                             ctx.hit("received_message_sent_back_as_it_is");
                                         }
